@@ -80,7 +80,10 @@ CallEff(vm, w) ==
         EXCEPT !.rc = <<Rc("Call", [id |-> cur, to |-> to, amount |-> amount, asset_id |-> asset, gas |-> fwd,
                                     param1 |-> a, param2 |-> b, pc |-> start, is |-> start])>>,
                !.upd = [frames |-> Append(vm.frames, [to |-> to, asset |-> asset, regs |-> saved]), cbal |-> cb2],
-               !.gst = {GasOf(vm, "call").base, BN!Add(GasOf(vm, "call").base, DepNoBase(GasOf(vm, "call"), BN!FromNat(cpad)))}]
+               !.gst = {GasOf(vm, "call").base, BN!Add(GasOf(vm, "call").base, DepNoBase(GasOf(vm, "call"), BN!FromNat(cpad)))},
+               \* the frame is placed after the gas to forward has been taken out of $cgas: a CALL whose frame does not fit
+               \* (MemoryGrowthOverlap) panics with $cgas already reduced to what the caller keeps
+               !.pmay = (CGAS :> BN!Sub(cgas1, fwd))]
 
 \* leaving a context: the caller's registers come back except $cgas (credited with the unspent gas), $ggas, $ret, $retl, $hp
 \* (gas: the charge for the returning instruction itself, already known to be payable on success)
